@@ -13,7 +13,12 @@
    operator put into the context (pkg/hook/binding_context MapV1): an onStartup
    context is {"binding": ...} without a type; every other kind carries its type.
    This file never mentions the model's table or loop; it shares with C19_Model only
-   the vocabulary (ctx, entry, obs, byte strings). *)
+   the vocabulary (ctx, entry, obs, byte strings, and the syntax [cmd] of handler bodies).
+
+   "whose handler fails", for a hook that loads the library "(strict mode)": the last
+   part of this file says when a handler written as a sequence of commands fails in
+   strict mode ([strict_status]); it never mentions the model's interpreter
+   (run_cmd / exec_from). *)
 From Coq Require Import String.
 From Verif Require Import Common C19_Model.
 
@@ -147,3 +152,80 @@ Definition in_domain (i : input) : bool := forallb wf_ctx (i_ctxs i).
 Definition reserved (c : ctx) : bool :=
   is "onStartup" (cur_binding c) && match c_type c with Some _ => true | None => false end.
 Definition T (i : input) : bool := negb (is_config (i_args i)) && existsb reserved (i_ctxs i).
+
+(* ====================================================================================
+   "the first context whose handler fails" when the handler is a sequence of commands
+   run in strict mode (set -e -u -o pipefail, inherit_errexit), after bash(1):
+
+   -e  "Exit immediately if a pipeline (which may consist of a single simple command), a
+        list, or a compound command returns a non-zero status.  The shell does not exit
+        if the command that fails is part of the command list immediately following a
+        while or until keyword, part of the test following the if or elif reserved
+        words, part of any command executed in a && or || list except the command
+        following the final && or ||, any command in a pipeline but the last, or if the
+        command's return value is being inverted with !."
+   -o pipefail  "the return value of a pipeline is the value of the last (rightmost)
+        command to exit with a non-zero status, or zero if all commands exit successfully"
+   -u  "Treat unset variables ... as an error ... a non-interactive shell will exit."
+   inherit_errexit  "command substitution inherits the value of the errexit option"
+   functions: "the return status is the exit status of the last command executed in the body". *)
+
+Definition nonzero (s : N) : bool := negb (N.eqb s 0).
+
+(* the status of the first failing one of a series of commands, 0 when none fails *)
+Definition first_failure (sts : list N) : N :=
+  match find nonzero sts with Some s => s | None => 0%N end.
+
+(* the status a command leaves *)
+Definition leaves (c : cmd) : N :=
+  match c with
+  | Plain st => st
+  | Pipe sts => first_failure (rev sts)          (* pipefail: the rightmost failing component *)
+  | OrTrue _ => 0%N
+  | AndTrue st => st
+  | IfCond _ => 0%N
+  | Not st => if N.eqb st 0 then 1%N else 0%N
+  | Return st => st
+  | Exit st => st
+  | Unset => 1%N
+  | Group sts => first_failure sts               (* errexit inside the subshell               *)
+  | Call sts => first_failure sts                (* ... inside the called function            *)
+  | Subst sts => first_failure sts               (* ... inside the substitution (inherit_errexit) *)
+  | LocalSubst _ => 0%N                          (* the status of `local`                     *)
+  end.
+
+(* strict mode ends the handler at this command *)
+Definition ends (c : cmd) : bool :=
+  match c with
+  | Return _ | Exit _ => true
+  | Unset => true                                                    (* -u *)
+  | Plain _ | Pipe _ | Group _ | Call _ | Subst _ => nonzero (leaves c)   (* -e *)
+  | OrTrue _ | AndTrue _ | IfCond _ | Not _ | LocalSubst _ => false  (* the exempt positions *)
+  end.
+
+(* the status of a handler: that of the first command that ends it; if none does, that
+   of its last command (0 for an empty body) *)
+Definition strict_status (b : body) : N :=
+  match find ends b with
+  | Some c => leaves c
+  | None => last (map leaves b) 0%N
+  end.
+
+(* an input whose handlers are given by their bodies: [ib_bodies h i] is what handler h
+   executes when context number i is current *)
+Record inputB := mkInputB {
+  ib_args    : list bytes;
+  ib_defined : list name;
+  ib_bodies  : name -> N -> body;
+  ib_ctxs    : list ctx
+}.
+
+(* a handler fails iff its strict-mode status is not 0 *)
+Definition results_of_bodies (bodies : name -> N -> body) : name -> N -> N :=
+  fun h i => strict_status (bodies h i).
+
+Definition to_input (i : inputB) : input :=
+  mkInput (ib_args i) (ib_defined i) (results_of_bodies (ib_bodies i)) (ib_ctxs i).
+
+(* the property for handlers given by their bodies: P with "fails" read in strict mode *)
+Definition PB (i : inputB) (o : obs) : bool := P (to_input i) o.
